@@ -179,7 +179,7 @@ func writeDesc(w io.Writer, desc string, indent int, withDesc bool) (err error) 
 				if _, err = w.Write([]byte(shift)); err == nil {
 					// Escape what the reader treats as special in a block string.
 					esc := strings.ReplaceAll(desc, `\`, `\\`)
-					esc = strings.ReplaceAll(esc, `"""`, `\"""`)
+					esc = strings.ReplaceAll(esc, `"""`, `\"\"\"`)
 					// A carriage return is read back from its escape. Written
 					// raw it is at the mercy of whatever carries the text, a
 					// Go raw string literal (ggqlgen -e) drops it.
